@@ -1289,6 +1289,20 @@ class Exec(object):
         if c[0] == 'const' and c[1] in ('True', 'False', 'None', '0', '1'):
             seq.extend(self.block(body if c[1] in ('True', '1') else orelse, st))
             return
+        if c[0] == 'cmp' and c[1] in ('is', '==') and c[2][0] == 'const' and c[3][0] == 'const':
+            # two literals: decided here (`p = None; if p is None:` after a default argument has been bound)
+            x, y = c[2][1], c[3][1]
+            sing = ('None', 'True', 'False')
+            verdict = None
+            if c[1] == 'is' and x in sing and y in sing:
+                verdict = x == y
+            elif c[1] == '==' and x == y:
+                verdict = True
+            elif c[1] == '==' and _intconst(c[2]) is not None and _intconst(c[3]) is not None and x not in sing and y not in sing:
+                verdict = _intconst(c[2]) == _intconst(c[3])
+            if verdict is not None:
+                seq.extend(self.block(body if verdict else orelse, st))
+                return
         sa, sb = st.copy(), st.copy()
         sa.known[c] = True
         sb.known[c] = False
